@@ -158,6 +158,10 @@ func TestReplay(t *testing.T) {
 	if err := json.Unmarshal(b, &v); err != nil || v.Scenario == nil {
 		t.Fatalf("not a C03 case: %v", err)
 	}
+	jf, part := judge, part
+	if v.Scenario.Term != nil {
+		jf, part = judgeTerm, partTerm
+	}
 	known := ev.Guard(func() {
 		soft := 0
 		runs := 60
@@ -170,7 +174,7 @@ func TestReplay(t *testing.T) {
 				t.Logf("infra: %s", res.Infra)
 				continue
 			}
-			misses, _ := judge(v.Scenario, res)
+			misses, _ := jf(v.Scenario, res)
 			if h := hardOf(misses); h != nil {
 				rb, _ := json.Marshal(res)
 				ev.Fail(t, part, h.Sig, "run %d: %s :: %s", i, h.Msg, rb)
